@@ -77,6 +77,10 @@ func c01Policies(thorough bool) []policy {
 			}
 		}
 	}
+	// upstreams that switch on the options which have nothing to do with admission: they admit exactly whom
+	// the same rules admit without them
+	out = append(out, policy{Name: "grp/skip0/other-options", Groups: polGroups, OtherOptions: true},
+		policy{Name: "addr/skip1/other-options", Addrs: polAddrs, Skip: skips[1], OtherOptions: true})
 	return out
 }
 
@@ -153,6 +157,45 @@ func scriptAuth(e *harness.ProxyEnv, x *explore.Exec, al authAlphabet) {
 			return a
 		}
 		a := opts[x.Choose("auth:"+c.Endpoint, len(opts))]
+		c.Answer = describeAnswer(a)
+		return a
+	}
+}
+
+// scriptAuthPerStep is scriptAuth for code that may put the two calls of a revalidation — /validate and
+// /profile — in flight at once: the order in which concurrent calls arrive is nobody's to control, so their
+// answers are not drawn call by call but together, in a fixed order, when the first of the two arrives
+// (unless the request has already refreshed: then no /validate follows). Every other call, and a second call
+// to the same endpoint within the request, is drawn when it comes.
+func scriptAuthPerStep(e *harness.ProxyEnv, x *explore.Exec, al authAlphabet) {
+	drawn := map[string]harness.AuthAnswer{}
+	used := map[string]bool{}
+	opts := map[string][]harness.AuthAnswer{"validate": al.Validate, "refresh": al.Refresh, "profile": al.Profile, "redeem": al.Redeem}
+	draw := func(ep, label string) {
+		if o := opts[ep]; len(o) > 0 {
+			drawn[ep] = o[x.Choose(label+ep, len(o))]
+		}
+	}
+	e.Auth.Answer = func(c *harness.AuthCall) harness.AuthAnswer {
+		if _, ok := drawn[c.Endpoint]; !ok || used[c.Endpoint] {
+			switch {
+			case used[c.Endpoint]:
+				draw(c.Endpoint, "auth-again:")
+			case (c.Endpoint == "validate" || c.Endpoint == "profile") && !used["refresh"]:
+				for _, ep := range []string{"validate", "profile"} {
+					if _, ok := drawn[ep]; !ok {
+						draw(ep, "auth:")
+					}
+				}
+			default:
+				draw(c.Endpoint, "auth:")
+			}
+		}
+		a, ok := drawn[c.Endpoint]
+		if !ok {
+			a = ans(500, "unexpected call")
+		}
+		used[c.Endpoint] = true
 		c.Answer = describeAnswer(a)
 		return a
 	}
@@ -370,7 +413,7 @@ func init() {
 		ID:    "C01",
 		Level: "exploration",
 		Rule: "full cartesian product, on a proxy built like cmd/sso-proxy (YAML -> SetUpstreamConfigs -> proxy.New, real cookie store/AES-SIV cipher/SSOProvider/reverse proxy to recording backends over loopback): " +
-			"policy {rule subsets of address/domain/group} x {no skip-auth, ^/public/, +unanchored /public2/} (x preflight in thorough); request {GET,OPTIONS(,POST)} x 12 paths (incl. encoded traversal, query/fragment look-alikes, /oauth2/auth, /favicon.ico, case variant) x XHR; " +
+			"policy {rule subsets of address/domain/group} x {no skip-auth, ^/public/, +unanchored /public2/} (x preflight in thorough), plus two policies with the admission-unrelated options skip_request_signing, tls_skip_verify, preserve_host and flush_interval switched on; request {GET,OPTIONS(,POST)} x 12 paths (incl. encoded traversal, query/fragment look-alikes, /oauth2/auth, /favicon.ico, case variant) x XHR; " +
 			"cookie {absent, garbage, sealed under another key, genuine x slug{right,wrong} x bound host{this,other upstream,empty(,case variant)} x lifetime/refresh/valid each {future,past} x user{address-rule,domain-rule,group-rule,no-rule,empty} x refresh token{yes,no}}; " +
 			"authenticator answers chosen on demand at every back-channel call: validate{200,401,500,503(,429)} refresh{201,401,403,500,503(,429)} profile{in group,in none,500,malformed,503(,429)}; for sessions with a due check the recorded outage start is {none, older than the grace TTL}. " +
 			"Oracle (one direction, 'only if'): backend reached or 202 on /oauth2/auth => reference session model admits (or the received path matches a configured skip pattern); otherwise status in {302 to the configured sign-in URL, 301, 4xx, 5xx} and no upstream content. " +
